@@ -289,6 +289,11 @@ func (g *gen) primary(depth int) string {
 			if g.r.Chance(6) {
 				return id + "::" + g.pick(typeBad)
 			}
+			if g.r.Chance(6) {
+				// a type name may be written as a quoted identifier
+				g.feat("varref:quoted-type-name")
+				return id + "::" + quoteIdentText(g.pick([]string{"float", "duration", "Integer", "time", "tag"}))
+			}
 			return id + "::" + g.pick(typeNames)
 		}
 		return id
